@@ -96,8 +96,21 @@ Definition input_of (a : cf_args) (basis : list string) (t : nat -> Q) : fc_inpu
   mkIn (fi_nq i) (fi_ncl i) (fi_circ i) (ca_gtab a basis) (fi_W i) (fi_gate_lo i) (fi_wire_lo i)
        (fi_max_gamma i) (fi_max_backjumps i) t.
 
+(* the TwoQubitGates group is absent from the copy: get_group returns None, get_action_subset(None, None) returns None and
+   `assert action_list is not None` in cut_optimization_next_state_func fails — as soon as a gate is expanded, which the
+   greedy pass does iff the circuit has a multi-qubit gate; the refusals of DeviceConstraints / OptimizationSettings come
+   before *)
+Definition find_cuts_missing_group (fuel : nat) (i : fc_input) : option (res (circ * metadata)) :=
+  if Nat.ltb (fi_W i) 1 then Some Refused else
+  if negb (settings_ok i) then Some Refused else
+  match get_multiqubit_gates (if_circuit (iface_init (qc_to_cco (fi_nq i) (fi_gtab i) (fi_circ i)))) with
+  | [] => public_result (find_cuts_full_acts fuel [] i)
+  | _ :: _ => Some Crashed
+  end.
+
 (* find_cuts as a function of what it reads from the process: the fresh copy, the function table, the decomposition
-   registry — and its arguments and tape.  None = outside the model (non-standard table / unknown action / no fuel). *)
+   registry — and its arguments and tape.  None = outside the model (a table not holding the five import-time functions,
+   an action name the search model has no semantics for) or out of fuel. *)
 Definition find_cuts_reg (fuel : nat) (fresh : res action_names) (tbl : func_table) (basis : list string)
                          (a : cf_args) (t : nat -> Q) : option (res (circ * metadata)) :=
   if negb (ft_beq tbl import_funcs) then None else
@@ -105,7 +118,8 @@ Definition find_cuts_reg (fuel : nat) (fresh : res action_names) (tbl : func_tab
   | Ok c =>
       match two_qubit_group c with
       | Some (Some acts) => public_result (find_cuts_full_acts fuel acts (input_of a basis t))
-      | _ => None
+      | Some None => find_cuts_missing_group fuel (input_of a basis t)
+      | None => None
       end
   | _ => Some Crashed                   (* the assertion inside define_action: AssertionError out of find_cuts *)
   end.
@@ -123,3 +137,7 @@ Definition O_cf (fuel : nat) (st : Z -> nat -> Q) (O : oracles) : oracles :=
 (* the registry after import, as a value *)
 Definition import_registry : action_names :=
   match import_actions with Ok an => an | _ => an_empty end.
+
+(* a process state as import leaves it, as far as find_cuts can see *)
+Definition import_state (g : gstate) : Prop :=
+  action_registry g = import_registry /\ funcs_lo g = import_funcs.
